@@ -35,7 +35,7 @@ func init() {
 		},
 		Run: run,
 		Floors: func(t string) map[string]int64 {
-			return map[string]int64{"geom.with_empty_member": 1000, "geom.empty_run>=2": 100, "geom.empty_collection": 50, "box.touching": 100, "box.empty_operand": 100, "box.sep_one_axis": 100, "box.extreme_extent": 500, "geom.long_path": 200, "geom.long_path>=4096": 60,
+			return map[string]int64{"geom.with_empty_member": 1000, "geom.empty_run>=2": 100, "geom.empty_collection": 50, "box.touching": 100, "box.empty_operand": 100, "box.sep_one_axis": 100, "box.extreme_extent": 500, "geom.long_path": 200, "storage.paths_share_one_backing_array": 3000, "geom.long_path>=4096": 60,
 				"type.Point": 10, "type.MultiPoint": 10, "type.LineString": 10, "type.MultiLineString": 10, "type.Polygon": 10, "type.MultiPolygon": 10, "type.GeometryCollection": 10, "type.*Bounds": 10}
 		},
 	})
@@ -179,6 +179,12 @@ func runGeom(c *core.Ctx) {
 		if n >= 4096 {
 			c.Count("geom.long_path>=4096")
 		}
+	}
+	if _, isBox := g.(*geom.Bounds); !isBox && r.Chance(0.3) {
+		// paths as consecutive sub-slices of one backing array (see gen.InArena); the expected
+		// vertex list below is a copy taken before any call
+		g = gen.InArena(g).G
+		c.Count("storage.paths_share_one_backing_array")
 	}
 	name := tn(g)
 	c.Count("type." + name)
